@@ -14,7 +14,7 @@ RULE = (
 ASSUMPTIONS = ["fastcache is not installed in this image, so the cachedsearch wrappers are pass-through (stated, not assumed away: they are still compared call by call)",
                "names/reprs in CountError cases are digit-free so the numbers in the message are unambiguous"]
 GATES = ["mon.C14.findall", "mon.C14.find", "mon.C14.by_attr", "mon.C14.cached", "C14.bound_equal_count", "C14.counterror_min", "C14.counterror_max",
-         "C14.attr_missing_skipped", "C14.find_none", "C14.find_one", "C14.find_many", "C14.none_value_with_missing_attr", "C14.unhashable_value", "C14.after_mutation", "C14.variant.getattr", "C14.variant.property", "C14.variant.valeq", "C14.variant.slots", "C14.variant.unhashable", "C14.variant.tuplename", "mon.C14.callbacks_like_preorderiter", "C14.raising_filter_propagates"]
+         "C14.attr_missing_skipped", "C14.find_none", "C14.find_one", "C14.find_many", "C14.none_value_with_missing_attr", "C14.unhashable_value", "C14.after_mutation", "C14.variant.getattr", "C14.variant.property", "C14.variant.valeq", "C14.variant.slots", "C14.variant.unhashable", "C14.variant.tuplename", "C14.variant.noname", "mon.C14.callbacks_like_preorderiter", "C14.raising_filter_propagates"]
 
 
 def plan(tier, seed, jobs):
@@ -153,7 +153,7 @@ def check_tree(ctx, nodes, tags, ch, s, case, bounds_all=True, rng=None):
                                   observed=repr(r[1])[:200] if r[0] == "exc" else m(r[1]))
                     return False
     # by_attr
-    for value in ("u", "v", "w", 1, None, ["l"], (1, 2), (), NAN):
+    for value in ("u", "v", "w", 1, None, ["l"], (1, 2), (), NAN, "caf\u00e9", "cafe\u0301"):
         for ml in (None, 1, 2, h + 1):
             adm = R.admitted(ch, s, frozenset(), ml)
             exp = [x for x in pre_all if x in adm and tags[x] is not ABSENT and tags[x] == value]
@@ -240,7 +240,7 @@ def check_tree(ctx, nodes, tags, ch, s, case, bounds_all=True, rng=None):
     r1 = call(search.findall_by_attr, nodes[s], "x", "tag", 2, None, None)
     r2 = call(cachedsearch.findall_by_attr, nodes[s], "x", "tag", 2, None, None)
     ok &= same("positional", r1, r2, {"start": s})
-    exp = [x for x in pre_all if x in R.admitted(ch, s, frozenset(), None) and True]
+    exp = [x for x in pre_all if x in R.admitted(ch, s, frozenset(), None) and case.get("variant") != "noname"]
     r1 = call(search.findall_by_attr, nodes[s], ("nm", "x") if case.get("variant") == "tuplename" else "nm")
     ok &= judge("findall_by_attr-default-name", r1, exp, None, None, {"start": s, "fn": "findall_by_attr default name"})
     return ok
@@ -252,7 +252,7 @@ def norm_tags(tags):
 
 
 _VARIANTS = {}
-VARIANTS = ("plain", "getattr", "property", "valeq", "slots", "unhashable", "tuplename")
+VARIANTS = ("plain", "getattr", "property", "valeq", "slots", "unhashable", "tuplename", "noname")
 
 
 def variant_class(variant):
@@ -274,6 +274,10 @@ def variant_class(variant):
             class PropertyNode(AnyNode):
                 @property
                 def tag(self):
+                    from anytree import search as _search
+
+                    # the attribute is computed, and computing it runs a search of its own (a reference being resolved)
+                    _search.findall_by_attr(self, "__no_such_value__", name="__no_such_attribute__")
                     store = self.__dict__.get("_store", {})
                     if "tag" in store:
                         return store["tag"]
@@ -310,6 +314,11 @@ def variant_class(variant):
                     return isinstance(other, UnhashableNode) and other.name == self.name
 
             _VARIANTS[variant] = UnhashableNode
+        elif variant == "noname":
+            class NamelessNode(AnyNode):
+                """No node of the tree has a 'name' attribute (nothing but 'tag')."""
+
+            _VARIANTS[variant] = NamelessNode
         elif variant == "tuplename":
             from anytree import Node
 
@@ -338,8 +347,10 @@ def build(par, tags, variant="plain"):
     nodes = []
     for i, p in enumerate(par):
         kw = {"name": ("nm", "x") if variant == "tuplename" else "nm"}
+        if variant == "noname":
+            kw = {}
         if tags[i] is not ABSENT:
-            if variant in ("plain", "valeq", "unhashable", "slots", "tuplename"):
+            if variant in ("plain", "valeq", "unhashable", "slots", "tuplename", "noname"):
                 kw["tag"] = tags[i]
             else:
                 kw["_store"] = {"tag": tags[i]}
@@ -378,7 +389,7 @@ def run(ctx):
         rng = ctx.rng("rand", r)
         n = rng.randint(7, 25)
         par, _ = gen.random_tree(rng, n)
-        tags = [rng.choice([ABSENT, "u", "v", "w", 1, True, 1.0, None, ["l"], (1, 2), (), NAN]) for _ in range(n)]
+        tags = [rng.choice([ABSENT, "u", "v", "w", 1, True, 1.0, None, ["l"], (1, 2), (), NAN, "caf\u00e9", "cafe\u0301"]) for _ in range(n)]  # (two spellings of one word: different strings)
         variant = VARIANTS[r % len(VARIANTS)]
         ctx.count("C14.variant." + variant)
         nodes = build(par, tags, variant)
